@@ -4,6 +4,21 @@ claimed / not_applicable partition is always consistent)."""
 import json
 
 CLAIMS = {
+ 'C07': dict(
+   text='PARTIAL (agreement of structure): the six join iterators (2 merge, 4 hash) compute key indices, carried-over '
+        'right fields and the output header with the same expressions and assemble matched / left-only / right-only rows '
+        'with the same recipe (normal-form sibling comparison; a deviating sibling is reported); the lookup builders are '
+        'extracted as decision tables over (strict, k in dictionary) and must implement append-in-table-order / create, resp. '
+        'raise-on-duplicate / keep-first / insert, identically across lookup, dictlookup, recordlookup and the *one '
+        'variants; the probe loop emits inside the loop over the streamed side; the lookup cache dispatch is the C11 '
+        'decision table. Two independent implementations that share these recipes agree on header and row shape for all '
+        'inputs.',
+   ref='DESIGN.md §4 C07',
+   note='does NOT decide multiset equality of outputs (which rows match is value-level); relies on C06 for the merge '
+        'joins being the reference; name canonicalisation follows the package convention (leading underscores, '
+        'lrow/rrow/outrow), a pure renaming is reported as undecided, not as a violation',
+   technique='sibling cross-check of normalised statement sequences (Engler-style deviance among implementations of '
+             'one interface) + decision-table extraction of the lookup update rule'),
  'C09': dict(
    text='PARTIAL (pipeline shape only): decides that every grouping operator sorts by its own key parameter unless '
         'presorted, groups by that same parameter (constructor parameter -> view attribute -> iterator parameter -> '
